@@ -1892,7 +1892,7 @@ def oracle(ctx, volume=1):
                 "followed by a byte-level snapshot comparison of the whole pool; non-trivial = the operation returned a value "
                 "(did not raise in both worlds); distinct by (history, step, operation, operands)")
     ctx.partial += [
-        {"theorem": "(no Lean theorem) copies independent / matrix bases unmodifiable / queries, conversions, projections, compose, tensor leave operands alone and give fresh-object results / interleavings of the machines on a shared pool",
+        {"theorem": "(no Lean theorem) copies independent / matrix bases unmodifiable / queries, conversions, projections, compose, tensor leave operands alone and give fresh-object results (interleavings of the four machines on one pool: interleaving_independent)",
          "missing": "carried by the history fuzzer (fresh-world differential + byte snapshots) and the generated-table obligations gen_writers_declared, gen_inplace_declared, gen_param_writes_declared only"},
         {"theorem": "fast_obs_eq_gen", "missing": "equality of the attributes read, not of the two value formulas (C12 proves fast = generic on equal attributes)"},
         {"theorem": "projEq_arg_unchanged_of_copy / gen_projEq_arg_unchanged", "missing": "conditional on the aliasing bits read off convert_var_to_hss by the translator (intra-procedural may-analysis); projEq_arg_overwritten_of_view is the statement for the other value"},
